@@ -268,8 +268,12 @@ class Check:
     def run_cases(self, cases):
         """→ list of (case, impl_out, model_out, oracle_result)"""
         mod = self.mod
-        lines = [mod.model_line(c) for c in cases]
-        model_out = run_driver([f"{self.pid} {ln}" if not ln.startswith(self.pid + " ") else ln for ln in lines])
+        lines = [mod.model_line(c) for c in cases]      # None ⇒ oracle-only case (no model counterpart)
+        idx = [i for i, ln in enumerate(lines) if ln is not None]
+        outs = run_driver([f"{self.pid} {lines[i]}" for i in idx])
+        model_out = [None] * len(cases)
+        for i, o in zip(idx, outs):
+            model_out[i] = o
         res = []
         for c, mo in zip(cases, model_out):
             try:
@@ -288,6 +292,8 @@ class Check:
         return res
 
     def agree(self, case, io, mo):
+        if mo is None:
+            return True
         cmp_ = getattr(self.mod, "compare", None)
         return cmp_(case, io, mo) if cmp_ else io == mo
 
@@ -456,6 +462,8 @@ class Check:
                 "samples": samples,
                 "correspondence": {
                     "cases": len(results), "corpus_cases": corpus_n, "search_cases": searched,
+                    "model_compared_cases": sum(1 for r in results_all if r[2] is not None),
+                    "oracle_only_cases": sum(1 for r in results_all if r[2] is None),
                     "disagreements": len(disagreements), "oracle_failures": len(oracle_fail),
                     "distribution": dist,
                 },
